@@ -799,9 +799,45 @@ class Ownership:
         ctx.ob(R, f'{owner.name}.{cb.name}: a failed streaming task is escalated: its exception is recorded and the owner ({owner.name}) is cancelled', bool(errs) and bool(cancels),
                loc=cb.loc(), construct=construct(cb, 'own:callback escalates'), detail=f'records {sorted(errs)}, cancels {[norm(c) for c in cancels]}')
         # not filtered away: the escalation must happen for every failure (task not cancelled, exception not None)
-        bad_guard = [n for n in walk_no_defs(cb.node) if isinstance(n, (ast.Return,)) or (isinstance(n, ast.Try) and n.handlers)]
-        ctx.ob(R, f'{owner.name}.{cb.name}: the escalation is not short-circuited (no early return / swallowed error in the callback)', not bad_guard, loc=cb.loc(),
-               construct=construct(cb, 'own:callback total'))
+        # path-sensitive: for a task that failed (not cancelled, exception not None), as the first failure, with the owner's task known, every normal
+        # path through the callback passes the cancellation of the owner -- whatever the style (nested ifs or guard clauses); no handler swallows errors
+        swallowing = [n for n in walk_no_defs(cb.node) if isinstance(n, ast.Try) and n.handlers]
+        _, cg = cfg_of(ctx, cb)
+
+        def val(e):
+            """Three-valued truth of a condition under the assumptions (None = unknown)."""
+            if isinstance(e, ast.UnaryOp) and isinstance(e.op, ast.Not):
+                v = val(e.operand)
+                return None if v is None else not v
+            if isinstance(e, ast.BoolOp):
+                vs = [val(x) for x in e.values]
+                if isinstance(e.op, ast.And):
+                    return False if False in vs else (True if all(v is True for v in vs) else None)
+                return True if True in vs else (False if all(v is False for v in vs) else None)
+            if isinstance(e, ast.Call) and method_call(e, 'cancelled') is not None:
+                return False                                # the task was not cancelled
+            if isinstance(e, ast.Compare) and len(e.ops) == 1 and isinstance(e.comparators[0], ast.Constant) and e.comparators[0].value is None \
+                    and isinstance(e.ops[0], (ast.Is, ast.IsNot)):
+                left = e.left
+                isnone = None
+                if isinstance(left, ast.Call) and method_call(left, 'exception') is not None:
+                    isnone = False                          # the task did fail
+                elif dotted(left) in cur:
+                    isnone = False                          # the owner's task is known ("never happens" guards)
+                elif dotted(left) in errs:
+                    isnone = True                           # it is the first failure
+                if isnone is None:
+                    return None
+                return isnone if isinstance(e.ops[0], ast.Is) else not isnone
+            return None
+
+        def assume(test, outcome):
+            v = val(test)
+            return False if (v is not None and v != outcome) else None
+        cnodes = cg.stmt_nodes(lambda x: isinstance(x, ast.Call) and method_call(x, 'cancel') is not None and dotted(method_call(x, 'cancel')) in cur)
+        esc = cg.escaping_exits([cg.entry], cnodes, classes=('normal',), edge_ok=cg.pruned(assume))
+        ctx.ob(R, f'{owner.name}.{cb.name}: the escalation is not short-circuited: for a failed task every path through the callback cancels the owner, and no '
+                  'handler in the callback swallows errors', not esc and bool(cnodes) and not swallowing, loc=cb.loc(), construct=construct(cb, 'own:callback total'))
         # the owner stops everything it created on every exit and re-raises the recorded failure
         stops = g.stmt_nodes(lambda x: isinstance(x, ast.Call) and is_call_to(repo, owner, x, f'{TASKS}.stop'))
         fin_stops = [s for s in stops if s.in_finally]
